@@ -1111,7 +1111,58 @@ def r07_23(run, model):
            f"memo key built from `args`: {keyed}; uses of argument elements examined: {n}; rewritten on the way: {len(bad)}")
 
 
+def r07_25(run, model):
+    run.rule("R07.25", "the text an instance is named by says everything about the type: instance and impl names are `ty_compact(ty)`, which is "
+                       "the pretty printer's rendering with the blanks removed - so `Ty::to_doc` (pprint/tast_pprint.rs), though a printer, is held to "
+                       "the standard of a naming function: an arm for every child-carrying former that uses every child, and no adaptor that "
+                       "shortens a list of components (take / skip / step_by / truncate / take_while / skip_while / nth) - two types that "
+                       "differ only in an elided component would share one name")
+    from lib import tytrav as T
+    PP = "crates/compiler/src/pprint/tast_pprint.rs"
+    names = model.fn("ty_compact", "crates/compiler/src/names.rs")
+    uses_printer = any(c["k"] == "MethodCall" and c["method"] in ("to_pretty", "to_doc") for c in S.walk(names.body))
+    if not uses_printer:
+        run.ob("R07.25", "ty_compact|renders through the type printer", True, site(names.file, names.node["sp"]), "ty_compact has a renderer of its own (audited as a Ty traversal)")
+        return
+    f = model.fn("to_doc", PP, impl="Ty")
+    ms = list(S.find(f.body, "Match"))
+    if not ms:
+        raise AnalysisIncomplete("Ty::to_doc: no match")
+    kids = T.child_variants(model)
+    seen = {}
+    for arm in ms[0]["arms"]:
+        for alt in S.pat_alts(arm["pat"]):
+            h = S.pat_head(alt)
+            if h[0] == "variant":
+                seen.setdefault(h[1][-1], []).append((arm, alt))
+    from lib import passes as P
+    for v, ks in sorted(kids.items()):
+        arms = seen.get(v, [])
+        ok = bool(arms)
+        why = "no arm of its own"
+        for arm, alt in arms:
+            b, _rest = P.arm_field_bindings(alt)
+            ids = S.idents(arm["body"])
+            for k in ks:
+                nm = b.get(k)
+                used = isinstance(nm, str) and nm in ids or (isinstance(nm, tuple) and any(x in ids for x in nm))
+                if not used:
+                    ok, why = False, f"component `{k}` is not rendered"
+        run.ob("R07.25", f"Ty::to_doc|{v} renders every component", ok, site(PP, (arms[0][0] if arms else f.node)["sp"]), "all components rendered" if ok else why,
+               witness="a former whose component is missing from the name: two instances share one Go function")
+    SHORT = {"take", "skip", "step_by", "truncate", "take_while", "skip_while", "nth", "split_off", "pop", "last"}
+    cuts = sorted({c["method"] for c in S.find(f.body, "MethodCall") if c["method"] in SHORT})
+    run.ob("R07.25", "Ty::to_doc|no list of components is shortened", not cuts, site(PP, f.node["sp"]), f"shortening adaptors: {cuts or 'none'}",
+           witness="id[T] used at (int32 x 9) and at (int32 x 8, string): the printer elides everything after the 8th element, both instances are named "
+                   "`id__T_(int32,..,int32,...)` - mono and Go declare one function twice with different bodies")
+    run.floor("child-carrying formers of Ty rendered by Ty::to_doc", len(kids), 6)
+
+
 def run(run, model):
+    run.try_rule(r07_25, model)
+    # genericity predicates answer for every component of a type (shared with C03 R03.27)
+    from rules import c03 as _c03q
+    run.try_rule(_c03q.r03_27, model, "R07.24")
     # a bounded call `x.show()` at an instance is resolved through the impl's function name: two impls sharing one name make an instantiation run the other trait's code (shared with C17 R17.1)
     from rules import c17 as _c17n
     run.try_rule(_c17n.r17_1, model)
